@@ -1937,6 +1937,8 @@ class SymEval:
                     raise _PyRaise(type(e).__name__, e)
                 if isinstance(e, ValueError) and ('not aligned' in str(e) or 'could not be broadcast' in str(e) or 'mismatch in its core dimension' in str(e) or 'nonzero on 0d arrays' in str(e)):
                     raise WouldRaise('ValueError: %s in %s' % (e, norm(n)))      # numpy refuses these operand shapes for real arrays too
+                if isinstance(e, ValueError) and isinstance(n.func, ast.Name) and n.func.id in ('float', 'int') and len(args) == 1 and isinstance(args[0], str) and not kw:
+                    raise WouldRaise('ValueError: %s in %s' % (e, norm(n)))      # float('') / int('x') on a concrete string: Python itself refuses
                 raise Opaque('cannot evaluate %s: %s: %s' % (norm(n), type(e).__name__, e))
         raise Opaque('call of %s' % norm(n.func))
 
